@@ -1,7 +1,7 @@
 (** C06 lemmas, part 8: the caret line of InjectDiagnostics (after fix e721538): one mark per column, a caret exactly
     under the columns the diagnostic's ranges cover on its last line. *)
-From Coq Require Import List String Ascii ZArith Bool Lia.
-From PintV Require Import Common.Bytes Model.Position Model.Layout Proofs.C06_expand.
+From Coq Require Import List String Ascii ZArith NArith Bool Lia.
+From PintV Require Import Common.Bytes Model.CommentsUnicode Model.Position Model.Layout Proofs.C06_expand.
 Import ListNotations.
 Local Open Scope Z_scope.
 Local Open Scope list_scope.
@@ -173,4 +173,22 @@ Proof.
   - apply sconcat_map_const. intros k Hk. rewrite Hon.
     replace (a <=? Z.of_nat k + 1) with true by (symmetry; apply Z.leb_le; lia).
     replace (Z.of_nat k + 1 <=? b) with true by (symmetry; apply Z.leb_le; lia). reflexivity.
+Qed.
+
+
+(** ** The caret line under any source line ([caret_marks_line]: one mark per character) is, for an ASCII line, the
+    per-byte [caret_marks] the theorems above speak about. *)
+Lemma decode_from_ascii_starts : forall s i,
+  ascii_only s = true -> map fst (decode_from 0 i s) = seq i (String.length s).
+Proof.
+  induction s as [|c r IH]; intros i H; [reflexivity|].
+  cbn [ascii_only] in H. apply andb_true_iff in H. destruct H as [Hc Hr].
+  cbn [decode_from decode1 String.length seq]. rewrite Hc. cbn [map fst Nat.pred]. f_equal. apply IH. exact Hr.
+Qed.
+
+Theorem caret_marks_line_ascii : forall line L prs,
+  ascii_only line = true -> caret_marks_line line L prs = caret_marks (String.length line) L prs.
+Proof.
+  intros line L prs H. unfold caret_marks_line, caret_marks, decode_all.
+  rewrite (decode_from_ascii_starts line 0 H). reflexivity.
 Qed.
